@@ -200,6 +200,9 @@ void CDNS::CdnsDecoder::skip_item()
                                             std::to_string(item_length)).c_str());
             }
             read_int(item_length);
+            // A tag is followed by the data item it applies to
+            if (cbor_type == CborType::TAG)
+                skip_item();
             break;
 
         case CborType::SIMPLE:
@@ -227,7 +230,7 @@ void CDNS::CdnsDecoder::skip_item()
             }
             if (item_length == 31) {
                 while(true) {
-                    if (peek_type() == CborType::SIMPLE && (m_p[0] & 0x1F) == 31) {
+                    if (peek_type() == CborType::BREAK) {
                         m_p++;
                         break;
                     }
@@ -292,7 +295,7 @@ std::string CDNS::CdnsDecoder::read_string(CborType cbor_type, uint64_t length, 
         }
     }
     else {
-        while (peek_type() != CborType::SIMPLE) {
+        while (peek_type() != CborType::BREAK) {
             CborType chunk_type;
             uint8_t chunk_length_value;
             read_cbor_type(chunk_type, chunk_length_value);
